@@ -1,55 +1,74 @@
 /-
   C11 — The result map is exactly the set of rules that returned in this call.
 
-  Engine level: for all 21 execution methods the write log of the result map is exactly
-  (rule, value) for the executed rules whose `Execute` reported `returned`, in a map that is
-  allocated by this call (`results_fresh`: nothing depends on the map left by an earlier call).
-  Rule level (`GV.Props.C02`/`Eval`): `returned` is reported iff a `return` statement was reached
-  and its expression evaluated without error.
+  Engine level: `results_exact` holds for EVERY skeleton satisfying the decidable predicate
+  `ResultsWF` (the method resets the map before anything can write it; every executed rule is
+  added iff `Execute` reported `returned`; no unrecognised statement), and the skeletons
+  extracted from engine/gengine.go on this run satisfy it (`wf_*`, by `decide`: T1 obligations).
+  `cfg.prev`, the map left by an earlier call, is universally quantified: nothing survives.
+  Rule level: `returned` is reported iff a `return` was reached and its expression evaluated
+  without error (GV.Props.C02 / Eval).
 -/
-import GV.Orch.AllConform
+import GV.Orch.Generic
+import GV.Generated.Orch
 namespace GV.Props.C11
 open GV.Orch GV.Generated.Orch
 
-/-- For every method and every configuration: the results are those of the executed rules that
-    returned, and nothing else. -/
-theorem C11_results (m : Method) (cfg : Cfg) (hp : Pre cfg) :
-    (run (All.skelOf m) cfg).1.results =
-      some (match spec m cfg with
-            | none => []
-            | some st => (st.flatten.filter (returned cfg)).map (fun r => (r.name, (cfg.out r.name).val))) := by
-  have h := All.conforms_all m cfg hp
-  have h2 := congrArg Obs.results h
-  simp only [obsOf, expectObs, expect] at h2
-  rw [h2]
-  cases spec m cfg <;> rfl
+theorem wf_Execute : ResultsWF Execute = true := by decide
+theorem wf_ExecuteWithStopTagDirect : ResultsWF ExecuteWithStopTagDirect = true := by decide
+theorem wf_ExecuteSelectedRules : ResultsWF ExecuteSelectedRules = true := by decide
+theorem wf_ExecuteSelectedRulesWithControl : ResultsWF ExecuteSelectedRulesWithControl = true := by decide
+theorem wf_ExecuteSelectedRulesWithControlAsGivenSortedName : ResultsWF ExecuteSelectedRulesWithControlAsGivenSortedName = true := by decide
+theorem wf_ExecuteSelectedRulesWithControlAndStopTag : ResultsWF ExecuteSelectedRulesWithControlAndStopTag = true := by decide
+theorem wf_ExecuteSelectedRulesWithControlAndStopTagAsGivenSortedName : ResultsWF ExecuteSelectedRulesWithControlAndStopTagAsGivenSortedName = true := by decide
+theorem wf_ExecuteConcurrent : ResultsWF ExecuteConcurrent = true := by decide
+theorem wf_ExecuteMixModel : ResultsWF ExecuteMixModel = true := by decide
+theorem wf_ExecuteMixModelWithStopTagDirect : ResultsWF ExecuteMixModelWithStopTagDirect = true := by decide
+theorem wf_ExecuteSelectedRulesConcurrent : ResultsWF ExecuteSelectedRulesConcurrent = true := by decide
+theorem wf_ExecuteSelectedRulesMixModel : ResultsWF ExecuteSelectedRulesMixModel = true := by decide
+theorem wf_ExecuteInverseMixModel : ResultsWF ExecuteInverseMixModel = true := by decide
+theorem wf_ExecuteSelectedRulesInverseMixModel : ResultsWF ExecuteSelectedRulesInverseMixModel = true := by decide
+theorem wf_ExecuteNSortMConcurrent : ResultsWF ExecuteNSortMConcurrent = true := by decide
+theorem wf_ExecuteNConcurrentMSort : ResultsWF ExecuteNConcurrentMSort = true := by decide
+theorem wf_ExecuteNConcurrentMConcurrent : ResultsWF ExecuteNConcurrentMConcurrent = true := by decide
+theorem wf_ExecuteSelectedNSortMConcurrent : ResultsWF ExecuteSelectedNSortMConcurrent = true := by decide
+theorem wf_ExecuteSelectedNConcurrentMSort : ResultsWF ExecuteSelectedNConcurrentMSort = true := by decide
+theorem wf_ExecuteSelectedNConcurrentMConcurrent : ResultsWF ExecuteSelectedNConcurrentMConcurrent = true := by decide
+theorem wf_ExecuteDAGModel : ResultsWF ExecuteDAGModel = true := by decide
 
-/-- Nothing from an earlier call survives: the outcome does not depend on the previous map. -/
-theorem C11_fresh (m : Method) (cfg : Cfg) (hp : Pre cfg) (p : Option (List (Name × Option Int))) :
-    (run (All.skelOf m) { cfg with prev := p }).1.results = (run (All.skelOf m) cfg).1.results := by
-  have hp' : Pre { cfg with prev := p } := ⟨hp.rb, hp.stop0, hp.flag, hp.perm⟩
-  rw [C11_results m _ hp', C11_results m cfg hp]
-  have hdag : ∀ l, dagFamily { cfg with prev := p } l = dagFamily cfg l := by
-    intro l
-    induction l with
-    | nil => rfl
-    | cons a l ih => simp only [dagFamily]; rw [ih]; rfl
-  have hspec : spec m { cfg with prev := p } = spec m cfg := by
-    cases m <;> first | rfl | (simp only [spec, hdag])
-  rw [hspec]
-  rfl
+/-- Every method the extractor found (also ones added later) is well formed. -/
+theorem wf_all : ∀ p ∈ GV.Generated.Orch.all, ResultsWF p.2 = true := by decide
 
-/-- A rule that did not run has no entry; a rule that ran and returned has its value. -/
-theorem C11_lookup (cfg : Cfg) (l : List Rule) (r : Rule) (hr : r ∈ l) (hret : returned cfg r = true) :
-    (r.name, (cfg.out r.name).val) ∈ (l.filter (returned cfg)).map (fun r => (r.name, (cfg.out r.name).val)) := by
-  apply List.mem_map.mpr
-  exact ⟨r, List.mem_filter.mpr ⟨hr, hret⟩, rfl⟩
+/-- For every extracted method and every call: the write log of the result map is exactly the
+    executed rules that returned; the call does not panic. -/
+theorem C11_results (name : String) (sk : Skel) (hm : (name, sk) ∈ GV.Generated.Orch.all) (cfg : Cfg)
+    (hrb : cfg.rbNil = false) :
+    (run sk cfg).1.results = some (resOf cfg (run sk cfg).1.stages.flatten) :=
+  (results_exact sk (wf_all _ hm) cfg hrb).1
 
-theorem C11_no_entry (cfg : Cfg) (l : List Rule) (n : Name) (v : Option Int)
-    (h : (n, v) ∈ (l.filter (returned cfg)).map (fun r => (r.name, (cfg.out r.name).val))) :
-    ∃ r ∈ l, r.name = n ∧ returned cfg r = true := by
+/-- Nothing from an earlier call survives: the log is determined by what ran in this call,
+    whatever the previous map was. -/
+theorem C11_fresh (sk : Skel) (hwf : ResultsWF sk = true) (cfg : Cfg) (hrb : cfg.rbNil = false)
+    (p : Option (List (Name × Option Int))) :
+    (run sk { cfg with prev := p }).1.results =
+      some (resOf cfg (run sk { cfg with prev := p }).1.stages.flatten) :=
+  (results_exact sk hwf { cfg with prev := p } hrb).1
+
+/-- An entry exists only for a rule that ran and returned … -/
+theorem C11_entry_sound (cfg : Cfg) (l : List Rule) (n : Name) (v : Option Int) (h : (n, v) ∈ resOf cfg l) :
+    ∃ r ∈ l, r.name = n ∧ (cfg.out r.name).flag = true ∧ (cfg.out r.name).val = v := by
   obtain ⟨r, hr, heq⟩ := List.mem_map.mp h
   obtain ⟨h1, h2⟩ := List.mem_filter.mp hr
-  exact ⟨r, h1, by simpa using congrArg Prod.fst heq, h2⟩
+  simp only [Prod.mk.injEq] at heq
+  exact ⟨r, h1, heq.1, h2, heq.2⟩
+
+/-- … and every rule that ran and returned has its entry. -/
+theorem C11_entry_complete (cfg : Cfg) (l : List Rule) (r : Rule) (hr : r ∈ l) (hf : (cfg.out r.name).flag = true) :
+    (r.name, (cfg.out r.name).val) ∈ resOf cfg l :=
+  List.mem_map.mpr ⟨r, List.mem_filter.mpr ⟨hr, hf⟩, rfl⟩
+
+/-- Non-vacuity: the sort model on a fresh engine (`prev = none`) and on a used one. -/
+example : (run Execute { sorted := [⟨"a", 1⟩], entities := [⟨"a", 1⟩], out := fun _ => ⟨true, some 7, false, false⟩,
+                          prev := some [("zz", some 1)] }).1.results = some [("a", some 7)] := by decide
 
 end GV.Props.C11
